@@ -350,3 +350,80 @@ theorem cannotReach_sound {P R A : Type} {m : MachineDesc} {act : ActionId → E
         simpa using this
 
 end Dc4bcVerif.Model
+
+namespace Dc4bcVerif.Model
+open Dc4bcVerif.Gen
+variable {P R A X : Type}
+
+theorem callbackOf_mem {m : MachineDesc} {e : Ev} {aid : ActionId} (h : callbackOf m e = some aid) :
+    aid ∈ m.callbacks.map (·.2) := by
+  unfold callbackOf at h
+  rw [Option.map_eq_some_iff] at h
+  obtain ⟨c, hf, hc⟩ := h
+  rw [List.mem_map]
+  exact ⟨c, List.mem_of_find?_eq_some hf, hc⟩
+
+theorem processAuto_preserves (proj : P → X) (m : MachineDesc) (act : ActionId → Ev → P → A → ActOut P R)
+    (hact : ∀ aid ∈ m.callbacks.map (·.2), ∀ e p a, proj (act aid e p a).payload = proj p)
+    (cur : St) (p : P) (mode : Nat) (a : A) : proj (processAuto m act cur p mode a).payload = proj p := by
+  unfold processAuto
+  cases hau : autoLookup m cur mode with
+  | none => rfl
+  | some au =>
+    dsimp only
+    cases hcb : callbackOf m au.event with
+    | none =>
+      dsimp only
+      cases hs : setState m cur ((none : Option Ev).getD au.event) <;> simp [hs]
+    | some aid =>
+      have hp := hact aid (callbackOf_mem hcb) au.event p a
+      dsimp only
+      cases hr : (act aid au.event p a).res with
+      | panic => simpa [hr] using hp
+      | err => simpa [hr] using hp
+      | ok =>
+        simp only [hr]
+        cases hs : setState m cur ((act aid au.event p a).outEvent.getD au.event) <;> simpa [hs] using hp
+
+theorem mainCallback_preserves (proj : P → X) (m : MachineDesc) (act : ActionId → Ev → P → A → ActOut P R)
+    (hact : ∀ aid ∈ m.callbacks.map (·.2), ∀ e p a, proj (act aid e p a).payload = proj p)
+    (tr : Tr) (b : AutoOut P R) (a : A) : proj (mainCallback m act tr b a).payload = proj b.payload := by
+  unfold mainCallback
+  cases hcb : callbackOf m tr.event with
+  | none => rfl
+  | some aid => exact hact aid (callbackOf_mem hcb) _ _ _
+
+theorem doTrAfter_preserves (proj : P → X) (m : MachineDesc) (act : ActionId → Ev → P → A → ActOut P R)
+    (hact : ∀ aid ∈ m.callbacks.map (·.2), ∀ e p a, proj (act aid e p a).payload = proj p)
+    (tr : Tr) (b : AutoOut P R) (o : ActOut P R) (a : A) : proj (doTrAfter m act tr b o a).payload = proj o.payload := by
+  unfold doTrAfter
+  dsimp only
+  cases hs : setState m b.state (o.outEvent.getD tr.event) with
+  | none => rfl
+  | some s1 => exact processAuto_preserves proj m act hact s1 o.payload 2 a
+
+/-- a projection of the payload that no callback of the machine changes is not changed by `Do` -/
+theorem doEvent_preserves (proj : P → X) (m : MachineDesc) (act : ActionId → Ev → P → A → ActOut P R)
+    (hact : ∀ aid ∈ m.callbacks.map (·.2), ∀ e p a, proj (act aid e p a).payload = proj p)
+    (cur : St) (p : P) (e : Ev) (a : A) : proj (doEvent m act cur p e a).payload = proj p := by
+  unfold doEvent
+  cases hl : lookup m cur e with
+  | none => rfl
+  | some tr =>
+    dsimp only
+    by_cases hi : tr.isInternal = true
+    · simp [hi]
+    · simp only [hi]
+      unfold doTr
+      dsimp only
+      have hb := processAuto_preserves proj m act hact cur p 1 a
+      have hmain := mainCallback_preserves proj m act hact tr (processAuto m act cur p 1 a) a
+      by_cases h1 : ((processAuto m act cur p 1 a).executed && (processAuto m act cur p 1 a).res != Res.ok) = true
+      · simp only [h1, ↓reduceIte]; exact hb
+      · simp only [h1, Bool.false_eq_true, ↓reduceIte]
+        by_cases h2 : ((mainCallback m act tr (processAuto m act cur p 1 a) a).res != Res.ok) = true
+        · simp only [h2, ↓reduceIte]; rw [hmain]; exact hb
+        · simp only [h2, Bool.false_eq_true, ↓reduceIte]
+          rw [doTrAfter_preserves proj m act hact, hmain]; exact hb
+
+end Dc4bcVerif.Model
